@@ -1,10 +1,71 @@
-(* C09 -- property theorems only. *)
+(* C09 -- property theorems only.  Each is closed by [exact] of a lemma proved in
+   Proofs/C09*.v; Print Assumptions beneath each.  H (hexdigest), dsz (digest size) and
+   uni (Unicode digit/space map of int()) are universally quantified oracles. *)
 From Coq Require Import List NArith ZArith Bool.
 Import ListNotations.
-Require Import Verif.Lib.Wire Verif.Lib.C09Base Verif.Gen.Facts_C09 Verif.Model.C09 Verif.Proofs.C09.
+Require Import Verif.Lib.Wire Verif.Lib.Utf8 Verif.Lib.C09Base Verif.Gen.Facts_C09 Verif.Model.C09 Verif.Proofs.C09.
 
-Theorem C09_forget_deletes : forall c r st,
-  step (fun _ _ => []) (fun _ => O) (fun _ => 63%N) c r st OForget
-  = (mkSt (reissued st) true (callbacks st), OutHdr (Some (get_cookies c r None None))).
-Proof. exact forget_deletes. Qed.
-Print Assumptions C09_forget_deletes.
+(* "no cookie at all is accepted unless its digest field is exactly the keyed digest of its
+   other fields": for EVERY cookie text, configuration, address and clock *)
+Theorem C09_accept_implies_digest : forall H dsz uni c r ck0 ts u toks ud,
+  (forall a x, forallb valid_scalar (H a x) = true) -> forallb valid_scalar ck0 = true ->
+  cookie r = Some ck0 ->
+  identify_pre H dsz uni c r = ISome ts u toks ud ->
+  digest_ok H dsz uni c r ck0 = true.
+Proof. exact accept_implies_digest. Qed.
+Print Assumptions C09_accept_implies_digest.
+
+(* an accepted identity is read off the cookie's own fields (same-fields-same-identity, and any
+   other identity needs the keyed digest of other fields), inside the timeout window *)
+Theorem C09_accept_fields : forall H dsz uni c r ck0 ts u toks ud,
+  cookie r = Some ck0 ->
+  identify_pre H dsz uni c r = ISome ts u toks ud ->
+  exists ip d uid tk,
+    eff_ip c r = Some ip /\ parse_fields dsz uni (hashalg c) ck0 = FOk d ts uid tk ud
+    /\ toks = Text.split_on comma tk
+    /\ encode d = encode (calculate_digest H (hashalg c) ip ts (secret c) uid tk ud)
+    /\ decode_userid uni (Text.split_on pipe ud) (VStr uid) = Some u
+    /\ timed_out c ts (now r) = false.
+Proof. exact accept_fields. Qed.
+Print Assumptions C09_accept_fields.
+
+(* "identification never raises and yields nothing" for every cookie that is not validly signed
+   (edited, truncated, other secret / algorithm / address, garbage), in any request state *)
+Theorem C09_identify_total : forall H dsz uni c r st ck0,
+  (forall a x, forallb valid_scalar (H a x) = true) -> forallb valid_scalar ck0 = true ->
+  cookie r = Some ck0 -> digest_ok H dsz uni c r ck0 = false ->
+  snd (identify H dsz uni c r st) = INone /\ fst (identify H dsz uni c r st) = st.
+Proof. exact identify_total. Qed.
+Print Assumptions C09_identify_total.
+
+Theorem C09_identify_no_cookie : forall H dsz uni c r st,
+  cookie r = None -> identify H dsz uni c r st = (st, INone).
+Proof. exact identify_no_cookie. Qed.
+Print Assumptions C09_identify_no_cookie.
+
+(* reissue: over every sequence of identify / remember / forget in one request *)
+Theorem C09_reissue_once : forall H dsz uni c r ops,
+  response_cookies (fst (run_ops H dsz uni c r st0 ops)) = spec_response H dsz uni c r ops.
+Proof. exact reissue_once. Qed.
+Print Assumptions C09_reissue_once.
+
+Theorem C09_reissued_ticket_is_fresh : forall H dsz uni c r hs,
+  spec_reissue_ticket H dsz uni c r = Some hs ->
+  exists ts u tk ud rt, identify_pre H dsz uni c r = ISome ts u tk ud /\ reissue_time c = Some rt
+    /\ cmp_eval reissue_cmp (now r - ts) rt = true
+    /\ remember H c r u (max_age c) (filter nonempty tk) = Some hs.
+Proof. exact reissued_ticket_is_fresh. Qed.
+Print Assumptions C09_reissued_ticket_is_fresh.
+
+(* issued cookies carry the configured name, path, domain variant, max-age, Secure, HttpOnly, SameSite *)
+Theorem C09_cookie_attributes_remember : forall H c r u ma toks hs k,
+  remember H c r u ma toks = Some hs -> In k hs ->
+  attrs_ok c r ma k = true /\ exists v, ck_value k = Some v.
+Proof. exact cookie_attributes_remember. Qed.
+Print Assumptions C09_cookie_attributes_remember.
+
+Theorem C09_cookie_attributes_forget : forall H dsz uni c r st k hs,
+  snd (step H dsz uni c r st OForget) = OutHdr (Some hs) -> In k hs ->
+  attrs_ok c r None k = true /\ ck_value k = None.
+Proof. exact cookie_attributes_forget. Qed.
+Print Assumptions C09_cookie_attributes_forget.
